@@ -96,7 +96,7 @@ def store(config, decls, table, name="data"):
         import xlsxwriter
 
         path = os.path.join(tmpdir(), name + ".xlsx")
-        workbook = xlsxwriter.Workbook(path)
+        workbook = harness.new_workbook(path)
         for _ in range(config.get("sheet", 1) - 1):
             workbook.add_worksheet().write_string(0, 0, "other sheet")
         sheet = workbook.add_worksheet()
